@@ -30,6 +30,9 @@ class PairAlgebra(Case):
                      "minus": "a.minus(b, match_strand=False)",
                      "union": "a.union(b)",
                      "has_overlap": "a.has_overlap(b)",
+                     "distance_inner": "(a.distance_to(b), b.distance_to(a))",
+                     "has_overlap_full_span": "(a.has_overlap(b, full_span=True), b.has_overlap(a, full_span=True))",
+                     "intersection_full_span": "a.intersection(b, match_strand=False, full_span=True)",
                      "contains": "a.contains(b)"}[op]
         A = lambda i: cov(i.as_, i.ae, i.p)  # noqa
         B = lambda i: cov(i.bs, i.be, i.p)  # noqa
@@ -41,6 +44,22 @@ class PairAlgebra(Case):
         elif op == "union":
             self.ensures = {"position-set": lambda i, r: Iff(covers_pos(r, i.p), Or(A(i), B(i))),
                             "well-formed": lambda i, r: wf_result(r, optimized=False)}
+        elif op == "has_overlap_full_span":
+            # documented: with full_span the full spans of BOTH operands are compared (hence symmetric)
+            spans = lambda i: Max(i.as_[0], i.bs[0]) < Min(i.ae[-1], i.be[-1])  # noqa
+            self.ensures = {"iff-spans-share-a-position": lambda i, r: And(Iff(r[0], spans(i)), Iff(r[1], spans(i)))}
+        elif op == "intersection_full_span":
+            self.ensures = {"position-set-of-span-intersection": lambda i, r: Iff(
+                covers_pos(r, i.p), And(Max(i.as_[0], i.bs[0]) <= i.p, i.p < Min(i.ae[-1], i.be[-1])))}
+        elif op == "distance_inner":
+            def mind(i):
+                from .c02_distance import d1
+                ds = [d1(s1, e1, s2, e2) for s1, e1 in zip(i.as_, i.ae) for s2, e2 in zip(i.bs, i.be)]
+                m = ds[0]
+                for x in ds[1:]:
+                    m = Min(m, x)
+                return m
+            self.ensures = {"min-over-block-pairs-and-symmetric": lambda i, r: And(r[0] == mind(i), r[1] == mind(i))}
         elif op == "has_overlap":
             self.ensures = {"iff-common-position": lambda i, r: Iff(r, _exists_common(i))}
         else:
@@ -125,6 +144,101 @@ class CompoundIntervalForm(Case):
         return d
 
 
+class CompoundIntervalFormMinus(CompoundIntervalForm):
+    """the same with relative strand MINUS: the j-th base of the result (in ITS 5'->3' order) is relative position
+    y-1-j of the source, and the strand is the composition (opposite)."""
+
+    def __init__(self, n):
+        super().__init__(n)
+        self.tier = "thorough" if n >= 3 else "quick"
+        self.name = f"CompoundInterval.relative_interval_to_parent_location[{n} blocks, relative strand MINUS]"
+        self.call = ("((lambda r: (r.relative_to_parent_pos(j), len(r), r.strand))"
+                     "(loc.relative_interval_to_parent_location(x, y, Strand.MINUS)), "
+                     "loc.relative_to_parent_pos(y - 1 - j))")
+        self.ensures = dict(self.ensures)
+        self.ensures["strand"] = lambda i, r: (Not(enum_eq(r[0][2], i.strand)) if hasattr(i.strand, "idx")
+                                                else r[0][2] is i.strand.reverse())
+
+
+def isect_size(as_, ae, bs, be):
+    return sum((Max(0, Min(e1, e2) - Max(s1, s2)) for s1, e1 in zip(as_, ae) for s2, e2 in zip(bs, be)), 0)
+
+
+class RelativeLocationForm(Case):
+    """q.location_relative_to(loc) (= loc.parent_to_relative_location(q)) with loc compound: every parent position
+    lying in both is represented by its point-wise relative position, the result has exactly as many bases as the
+    overlap (with injectivity of parent_to_relative_pos - C01 inverse lemma - that makes it exactly the image), the
+    strand is the composition, and non-overlapping operands are refused."""
+    props = ("C01",)
+    func = COMPOUND + "._location_relative_to"
+
+    def __init__(self, nq, nl, optimize=True):
+        self.nq, self.nl, self.optimize = nq, nl, optimize
+        self.tier = "thorough" if nq + nl >= 4 else "quick"
+        self.name = (f"location_relative_to[query {nq} block(s) -> location {nl} blocks, optimize_blocks={optimize}, "
+                     "all coordinates]")
+        self.call = f"(q.location_relative_to(loc, optimize_blocks={optimize}), loc.parent_to_relative_pos(p))"
+        self.module = "location.location_impl"
+        self.ensures = {
+            "point-wise-image": lambda i, r: covers_pos(r[0], r[1]),
+            "size=overlap": lambda i, r: r[0].length == isect_size(i.qs, i.qe, i.ls, i.le) if self.optimize else True,
+            "strand-composed": lambda i, r: (Iff(r[0].strand.idx == 0, i.qstrand.idx == i.lstrand.idx)
+                                             if hasattr(i.qstrand, "idx")
+                                             else (r[0].strand.name == "PLUS") == (i.qstrand is i.lstrand)),
+            "in-range": lambda i, r: And(0 <= r[0].start, r[0].end <= sum((e - s for s, e in zip(i.ls, i.le)), 0)),
+        }
+
+    def inputs(self, S):
+        qstrand, lstrand = strand_of(S, "qstrand"), strand_of(S, "lstrand")
+        q, qs, qe = loc(S, "q", self.nq, qstrand)
+        l, ls, le = loc(S, "loc", self.nl, lstrand)
+        p = S.int("p")
+        if getattr(self, "needs_common", True):
+            S.assume(And(cov(qs, qe, p), cov(ls, le, p)))
+        return NS(q=q, loc=l, qs=qs, qe=qe, ls=ls, le=le, p=p, qstrand=qstrand, lstrand=lstrand)
+
+    def samples(self, rng):
+        d = sample_blocks(rng, "q", self.nq)
+        d.update(sample_blocks(rng, "loc", self.nl))
+        both = [p for p in range(0, 40) if any(s <= p < e for s, e in zip(d["q_starts"], d["q_ends"]))
+                and any(s <= p < e for s, e in zip(d["loc_starts"], d["loc_ends"]))]
+        d.update(qstrand=rng.choice(["PLUS", "MINUS"]), lstrand=rng.choice(["PLUS", "MINUS"]),
+                 p=rng.choice(both) if both else 0)
+        return d
+
+    def observe(self, r):
+        return [obs_loc(r[0])[:3], r[1]]
+
+
+class RelativeLocationRefusal(Case):
+    props = ("C01", "C19")
+    func = "location.location.Location.location_relative_to"
+    needs_common = False
+
+    def __init__(self, nq, nl):
+        self.nq, self.nl = nq, nl
+        self.tier = "thorough" if nq + nl >= 4 else "quick"
+        self.name = f"location_relative_to[query {nq} -> location {nl} blocks]: refused iff no common base"
+        self.call = "q.location_relative_to(loc)"
+        self.module = "location.location_impl"
+        self.raises = {"LocationOverlapException": lambda i: isect_size(i.qs, i.qe, i.ls, i.le) == 0}
+        self.ensures = {"non-empty": lambda i, r: r.length >= 1}
+
+    inputs = RelativeLocationForm.inputs
+    samples = RelativeLocationForm.samples
+
+    def observe(self, r):
+        return obs_loc(r)[:3]
+
+
 CASES = [PairAlgebra(na, nb, op) for op in ("intersection", "minus", "union", "has_overlap", "contains")
          for na, nb in ((2, 1), (1, 2), (2, 2), (3, 2))]
+CASES += [PairAlgebra(na, nb, op) for op in ("has_overlap_full_span", "intersection_full_span")
+          for na, nb in ((2, 1), (1, 2), (2, 2))]
+CASES += [PairAlgebra(na, nb, "distance_inner") for na, nb in ((2, 2), (3, 2))]
+CASES[-1].tier = "quick"
 CASES += [CompoundIntervalForm(2), CompoundIntervalForm(3), CompoundIntervalForm(4)]
+CASES += [CompoundIntervalFormMinus(2), CompoundIntervalFormMinus(3)]
+CASES += [RelativeLocationForm(1, 2), RelativeLocationForm(2, 2), RelativeLocationForm(1, 3),
+          RelativeLocationForm(2, 2, optimize=False), RelativeLocationForm(3, 2),
+          RelativeLocationRefusal(1, 2), RelativeLocationRefusal(2, 2)]
